@@ -37,7 +37,7 @@ func runC07(c *Ctx) {
 		pRefresh := w.Func("allocation", "Permission", "refresh")
 		pStart := w.Func("allocation", "Permission", "start")
 		nR, nS := 0, 0
-		w.eachInstr(addPerm, func(in ssa.Instruction) {
+		w.eachInstrDeep(addPerm, func(in ssa.Instruction) {
 			call, ok := in.(*ssa.Call)
 			if !ok {
 				return
@@ -85,7 +85,7 @@ func runC07(c *Ctx) {
 			cal := staticCallee(in)
 			return cal == pRefresh || cal == pStart
 		}
-		if ok, trail := mustPassBefore(addPerm.Blocks[0], hit, func(*ssa.BasicBlock) bool { return false }); !ok {
+		if ok, trail := mustPassBefore(addPerm.Blocks[0], w.deepHit(hit), func(*ssa.BasicBlock) bool { return false }); !ok {
 			c.Bad("C07.2", fname(addPerm), "all paths", w.pos(addPerm.Pos()), "a path through AddPermission neither refreshes the existing entry nor starts the new one", trail...)
 		}
 	}
